@@ -129,11 +129,12 @@ func zzObject(kind int, name string) runtime.Object {
 }
 
 // zzInstall runs one revision reconcile on the cache-hit path for the given
-// package type (0 provider, 1 configuration) and checks what is established.
+// package type (0 provider, 1 configuration, 2 function) and checks what is established.
 func zzInstall(pkgType int) {
 	s := kube.New()
 	s.Register(&v1.ProviderRevision{}, &v1.ProviderRevisionList{}, "pkg.crossplane.io", "ProviderRevision")
 	s.Register(&v1.ConfigurationRevision{}, &v1.ConfigurationRevisionList{}, "pkg.crossplane.io", "ConfigurationRevision")
+	s.Register(&v1.FunctionRevision{}, &v1.FunctionRevisionList{}, "pkg.crossplane.io", "FunctionRevision")
 
 	// package content: metadata objects and other objects
 	nMeta := zz.Choose("meta.count", 3)
@@ -157,7 +158,12 @@ func zzInstall(pkgType int) {
 			metas = append(metas, &pkgmetav1.Function{ObjectMeta: metav1.ObjectMeta{Name: "m"}, Spec: pkgmetav1.FunctionSpec{MetaSpec: pkgmetav1.MetaSpec{Crossplane: cc}}})
 		}
 	}
-	nObj := zz.Choose("objects.count", zz.Bound(3, 4))
+	maxObj := zz.Bound(3, 4)
+	if pkgType == 2 {
+		// the function linter does not restrict object kinds: fewer objects
+		maxObj = zz.Bound(2, 3)
+	}
+	nObj := zz.Choose("objects.count", maxObj)
 	var objs []runtime.Object
 	objKinds := make([]int, 0, nObj)
 	for i := 0; i < nObj; i++ {
@@ -176,6 +182,9 @@ func zzInstall(pkgType int) {
 	if pkgType == 0 {
 		pr = &v1.ProviderRevision{ObjectMeta: metav1.ObjectMeta{Name: "rev", UID: "uid-rev"}}
 		linter = xpkg.NewProviderLinter()
+	} else if pkgType == 2 {
+		pr = &v1.FunctionRevision{ObjectMeta: metav1.ObjectMeta{Name: "rev", UID: "uid-rev"}}
+		linter = xpkg.NewFunctionLinter()
 	} else {
 		pr = &v1.ConfigurationRevision{ObjectMeta: metav1.ObjectMeta{Name: "rev", UID: "uid-rev"}}
 		linter = xpkg.NewConfigurationLinter()
@@ -210,6 +219,9 @@ func zzInstall(pkgType int) {
 	if pkgType == 1 {
 		newRev = func() v1.PackageRevision { return &v1.ConfigurationRevision{} }
 	}
+	if pkgType == 2 {
+		newRev = func() v1.PackageRevision { return &v1.FunctionRevision{} }
+	}
 	r := NewReconciler(&zzMgr15{c: s},
 		WithNewPackageRevisionFn(newRev),
 		WithCache(zzCache{}),
@@ -237,7 +249,7 @@ func zzInstall(pkgType int) {
 	for _, k := range objKinds {
 		if pkgType == 0 {
 			zz.Assert("provider-package-installs-only-permitted-kinds", k == zzKindCRD || k == zzKindMutatingWebhook || k == zzKindValidatingWebhook)
-		} else {
+		} else if pkgType == 1 {
 			zz.Assert("configuration-package-installs-only-permitted-kinds", k == zzKindXRD || k == zzKindComposition)
 		}
 	}
@@ -274,3 +286,10 @@ func HarnessC15Provider() { zzInstall(0) }
 //gosym:harness
 //gosym:cover installed not-installed constraints-checked verification-on
 func HarnessC15Configuration() { zzInstall(1) }
+
+// HarnessC15Function: what a function revision installs (the function linter
+// restricts the metadata, not the kinds of the other objects).
+//
+//gosym:harness
+//gosym:cover installed not-installed constraints-checked verification-on
+func HarnessC15Function() { zzInstall(2) }
